@@ -4,6 +4,8 @@ import vlib
 
 
 def key_of(r):
+    if r["kind"] == "ramp":
+        return "ramp-panics" if r["panicked"] else "ramp-does-not-mean-what-its-two-rates-spell"
     if r["kind"] == "rate":
         if r["panicked"]:
             return "rate-string-panics"
@@ -40,7 +42,7 @@ def run(tier, seed, replay_rows=None):
     vlib.flow(ck, mcs=[], sub="c14", trace_module="Trace_RateGrammar", trace_cfg="Trace_RateGrammar.cfg",
               trace_file="c14.ndjson", var="l", key_of=key_of,
               nontrivial=lambda r: r["kind"] != "rate" or "/" in r["str"],
-              distinct_key=lambda r: r["kind"] + ":" + (r.get("str") if r["kind"] == "rate" else r["front"] + r["input"]),
+              distinct_key=lambda r: r["kind"] + ":" + (r.get("str") if r["kind"] in ("rate", "ramp") else r["front"] + r["input"]),
               describe=lambda r: json.dumps(r)[:500], replay_rows=replay_rows, workers=8)
     ck.exhaustive = True
     return ck.finish()
